@@ -4,5 +4,5 @@
 import sys
 sys.path[:0] = ['/repo' + "/pulser-core", '/repo' + "/pulser-simulation", "/verif"]
 from symx.replay import replay
-sys.exit(replay(check='checks.c06', kernel='program', shape={'program': 'eom_nodelay', 'ext': [0, 3]},
-                assignment={}, label='nested_all_local:atom_det'))
+sys.exit(replay(check='checks.c06', kernel='program', shape={'program': 'xy_slm_unused', 'ext': [0, 3]},
+                assignment={'a0': '1/1024', 'd0': '0/1', 'a1': '1/1024', 'd1': '1/1024'}, label='nested_all_local:atom_det'))
